@@ -26,6 +26,23 @@ Theorem c20_no_singleton_write : forall im a w,
   w_static (fst (sem im a w)) = w_static w /\ w_sets (fst (sem im a w)) = w_sets w.
 Proof. intros; split; [apply sem_static | apply sem_sets]. Qed.
 
+(* the registry instances a caller creates and shares (allow-list, flags) are part of that
+   static state: no step of any compiled call writes them, along no interleaving *)
+Theorem c20_no_registry_write : forall A im (c c' : world * list (prog A)),
+  greach im c c' -> st_regs (w_static (fst c')) = st_regs (w_static (fst c)).
+Proof. intros A im c c' R. destruct (greach_static im c c' R) as [E _]. rewrite E. reflexivity. Qed.
+
+(* ... and they ARE read: a verify through a shared registry whose allow-list is ["HS384"]
+   refuses an HS256 token that the same call accepts with its own default registry *)
+Example c20_shared_registry_is_read :
+  let w := {| w_keys := repeat kst0 1; w_sets := []; w_rng := 0;
+              w_static := with_regs static0 [{| cr_allowed := Some ["HS384"%string]; cr_strict := true |}] |} in
+  option_map fst (run_seq ex_im 300 w (compile true ex_im (fun _ _ => 0%nat) (CJws false (KKey 0) None "HS256" (RShared 0) None)))
+    = Some (Err (EJose UnsupportedAlgorithmError)) /\
+  option_map fst (run_seq ex_im 300 w (compile true ex_im (fun _ _ => 0%nat) (CJws false (KKey 0) None "HS256" (ROwn None) None)))
+    = Some (Ok PNone).
+Proof. vm_compute. split; reflexivity. Qed.
+
 Theorem c20_no_singleton_write_run : forall A im (c c' : world * list (prog A)),
   greach im c c' -> w_static (fst c') = w_static (fst c) /\ w_sets (fst c') = w_sets (fst c).
 Proof. exact @greach_static. Qed.
@@ -268,7 +285,7 @@ Qed.
 (* non-vacuity of the round-2 hypotheses *)
 Example c20_round2_instance :
   ww ex_im 1 static0 [[0%nat]] (init_world 1 [[0%nat]]) /\ vkey ex_im 1 0 /\
-  call_pre ex_im 1 [[0%nat]] (CJws true (KSet 0) None "HS256" None None) (init_world 1 [[0%nat]]) /\
+  call_pre ex_im 1 [[0%nat]] (CJws true (KSet 0) None "HS256" (ROwn None) None) (init_world 1 [[0%nat]]) /\
   (forall idx m, (0 < m)%nat -> ((fun (_ : N) (_ : nat) => 0%nat) idx m < m)%nat).
 Proof.
   assert (vkey ex_im 1 0) as V.
@@ -293,6 +310,7 @@ Print Assumptions c20_draws_own.
 Print Assumptions c20_footprint.
 Print Assumptions c20_no_singleton_write.
 Print Assumptions c20_no_singleton_write_run.
+Print Assumptions c20_no_registry_write.
 Print Assumptions c20_slot_invariant.
 Print Assumptions c20_interleave_monotone.
 Print Assumptions c20_interleave.
